@@ -123,7 +123,8 @@ func (x *Exec) execInstr(fr *frame, st *State, in ssa.Instruction) {
 	case *ssa.ChangeInterface:
 		st.env[i] = x.operand(fr, st, i.X)
 	case *ssa.MakeInterface:
-		st.env[i] = Opq{Typ: i.Type(), Inner: x.operand(fr, st, i.X), Tag: "iface"}
+		notNil := tFalse
+		st.env[i] = Opq{Typ: i.Type(), Inner: x.operand(fr, st, i.X), Tag: "iface", NilC: &notNil}
 	case *ssa.FieldAddr:
 		p, ok := x.operand(fr, st, i.X).(Ptr)
 		if !ok {
@@ -394,7 +395,19 @@ func (x *Exec) compareNonScalar(fr *frame, a, b Value) T {
 		}
 		bail("%s: slice comparison", fr.name)
 	case Opq:
-		// interface / chan / func comparisons (typically with nil): not modelled -> nondeterministic
+		if q, ok := b.(Opq); ok && p.NilC != nil && q.NilC != nil {
+			// comparison of interface values where one side is the nil constant
+			if q.NilC.S == "true" {
+				return *p.NilC
+			}
+			if p.NilC.S == "true" {
+				return *q.NilC
+			}
+		}
+		if q, ok := b.(Ptr); ok && q.Nil && p.NilC != nil {
+			return *p.NilC
+		}
+		// other interface / chan / func comparisons: not modelled -> nondeterministic
 		return x.vc.fresh("opqeq", BoolSort)
 	case Clo:
 		return tFalse
@@ -404,7 +417,10 @@ func (x *Exec) compareNonScalar(fr *frame, a, b Value) T {
 			return eq
 		}
 	}
-	if _, ok := b.(Opq); ok {
+	if q, ok := b.(Opq); ok {
+		if pp, isP := a.(Ptr); isP && pp.Nil && q.NilC != nil {
+			return *q.NilC
+		}
 		return x.vc.fresh("opqeq", BoolSort)
 	}
 	bail("%s: comparison of %T and %T", fr.name, a, b)
